@@ -97,7 +97,7 @@ def make_case(rng, style, ident, sizing, upscale, ha, va, alpha, W, H, iw, ih, *
         mode=rng.choice(["RGBA", "RGBA", "RGB", "LA", "P"]) if alpha != "#" else rng.choice(["RGBA", "RGB"]),
         pixstyle=rng.choice(["mixed", "mixed", "noise"]),
         fg_bg=rng.choice([[None, None], [[200, 200, 200], [0, 0, 0]]]),
-        sargs="", disguise=[0, 0], history=[],
+        sargs="", disguise=[0, 0], history=[], session=[], upscale2=True,
     )
     if style != "block":
         c["pixstyle"] = "noise"  # strips of different lines must differ
@@ -151,6 +151,47 @@ def gen_flow_sweep(rng: random.Random, tier: str):
                                     rng.choice(V_ALIGNS), rng.choice(["", "#"]), W, 0, 1, 1,
                                     src=src, cell=list(cell), pixstyle="uniform", mode="RGB",
                                     sargs=rng.choice(["", "L"]) if style != "block" else "")
+
+
+def random_session(rng, S):
+    """box render at S, something else resizes the shared image, box render at S again."""
+    between = rng.choice([
+        [["render", 0, rng.randrange(S[0] + 1, MAXW + 1) if S[0] < MAXW else S[0] - 1, 0]],
+        [["render", 1, min(MAXW, S[0] + rng.randrange(1, 4)), min(MAXH, S[1] + rng.randrange(0, 3))]],
+        [["set_size", rng.randrange(1, 14)]],
+        [["render", 1, rng.randrange(1, MAXW + 1), 0], ["set_size", rng.randrange(1, 14)]],
+    ])
+    steps = [["render", 0, S[0], S[1]]] + between + [["render", 0, S[0], S[1]]]
+    if rng.random() < 0.5:
+        steps += [["render", 1, rng.randrange(1, MAXW + 1), rng.randrange(1, MAXH + 1)],
+                  ["render", 0, S[0], S[1]]]
+    return steps
+
+
+def gen_sessions(rng: random.Random, tier: str):
+    """Redraw sessions: the image's size is mutable state shared by every widget showing it."""
+    ident = lambda: rng.choice(GFX_IDENTS["block"])  # noqa: E731
+    # one widget: box S, flow (image takes its original size), box S again
+    yield make_case(rng, "block", ident(), "box", False, "<", "^", rng.choice(ALPHAS), 5, 3, 6, 3,
+                    session=[["render", 0, 5, 3], ["render", 0, 8, 0], ["render", 0, 5, 3]])
+    # two widgets sharing one image, alternating, each redrawn at its unchanged size
+    yield make_case(rng, "block", ident(), "box", True, "|", "-", rng.choice(ALPHAS), 4, 2, 6, 3,
+                    upscale2=True,
+                    session=[["render", 1, 4, 2], ["render", 0, 9, 6], ["render", 1, 4, 2],
+                             ["render", 0, 9, 6]])
+    # the application resizes the image in between
+    yield make_case(rng, "block", ident(), "box", False, ">", "_", rng.choice(ALPHAS), 6, 4, 3, 2,
+                    session=[["render", 0, 6, 4], ["set_size", 9], ["render", 0, 6, 4]])
+    # graphics
+    yield make_case(rng, "kitty", "kitty", "box", False, "|", "-", "", 4, 3, 5, 3,
+                    session=[["render", 0, 4, 3], ["render", 0, 7, 0], ["render", 0, 4, 3]])
+    for _ in range(2 if tier == "quick" else 60):
+        S = (rng.randrange(2, 8), rng.randrange(2, MAXH))
+        style = "block" if rng.random() < 0.8 else rng.choice(["kitty", "iterm2"])
+        yield make_case(rng, style, rng.choice(GFX_IDENTS[style]), "box", rng.random() < 0.4,
+                        rng.choice(H_ALIGNS), rng.choice(V_ALIGNS), rng.choice(ALPHAS), S[0], S[1],
+                        rng.randrange(1, MAXW + 1), rng.randrange(1, MAXH + 1),
+                        upscale2=rng.random() < 0.6, session=random_session(rng, S))
 
 
 def gen_cases(rng: random.Random, tier: str):
@@ -573,9 +614,9 @@ def collect_session(case, rects, table: RowTable, rep: Report, only_step: int = 
             raise tlc.MachineryError(f"render() did not return an UrwidImageCanvas: {type(canvas)}")
         if only_step >= 0 and k != only_step:
             continue
-        out.append(record_canvas(case, canvas, announced, (w, h), None,
-                                 rects if h or rects is not None else "full", table, rep,
-                                 MAXH if rects is None and h else SWEEP_MAX_H, step=k))
+        rr = rects if rects is not None else (None if canvas.rows() <= MAXH else "full")
+        out.append(record_canvas(case, canvas, announced, (w, h), None, rr, table, rep,
+                                 SWEEP_MAX_H, step=k))
     return out
 
 
@@ -628,6 +669,13 @@ def canaries(batch):
     t2 = copy.deepcopy(traces[0])
     t2["announced"] = len(t2["got"]) + 1
     out.append((t2, "flow-rows", 0))
+    # 5. a canvas that claims another size than the widget was asked for
+    for base, t in enumerate(traces):
+        cv = batch["canvases"][t["canvas"] - 1]
+        if (t["tl"], t["tt"], t["cols"], t["rows"]) == (0, 0, cv["W"], cv["H"]):
+            batch["canvases"].append(dict(cv, reqW=cv["reqW"] + 1))
+            out.append((dict(copy.deepcopy(t), canvas=len(batch["canvases"])), "canvas-size", base))
+            break
     return out
 
 
@@ -667,7 +715,7 @@ def main(rep: Report, replay: dict | None) -> None:
 def traces_part(rep: Report, replay: dict | None, t_start: float) -> None:
 
     rng = random.Random(rep.seed * 104729 + 17)
-    budget = 19500 if rep.tier == "quick" else 10**9
+    budget = 19000 if rep.tier == "quick" else 10**9
     batch_target = 2200
     batches, metas = [], []
     cur = None
@@ -681,6 +729,7 @@ def traces_part(rep: Report, replay: dict | None, t_start: float) -> None:
         plan = [(sc["case"], [tuple(sc["rect"])] if "rect" in sc else None)]
     else:
         plan = itertools.chain(((c, "full") for c in gen_flow_sweep(rng, rep.tier)),
+                               ((c, None) for c in gen_sessions(rng, rep.tier)),
                                ((c, None) for c in gen_cases(rng, rep.tier)))
 
     ncanv = 0
@@ -716,6 +765,8 @@ def traces_part(rep: Report, replay: dict | None, t_start: float) -> None:
     if cur is not None and cur["traces"]:
         batches.append(cur)
     if not batches:
+        if rep.violations:  # e.g. a replayed content() call that raises: already reported
+            return
         raise tlc.MachineryError("no canvas could be recorded")
     t_render = time.time() - t_start
 
@@ -751,7 +802,8 @@ def traces_part(rep: Report, replay: dict | None, t_start: float) -> None:
     seen = {"text-horizontal-cut-inside-image": 0, "gfx-vertical-trim-with-placements": 0,
             "gfx-horizontal-trim": 0, "flow-canvas": 0, "box-canvas": 0,
             "gfx-flow-at-original-columns-of-non-multiple-source": 0,
-            "text-cut-of-kept-canvas-after-image-resized": 0}
+            "text-cut-of-kept-canvas-after-image-resized": 0,
+            "box-canvas-redrawn-at-unchanged-size-after-image-resized": 0}
     for b, vs in zip(batches, verdict_lists):
         for meta, v, trace in zip(b["_meta"], vs, b["traces"]):
             if meta is None:
@@ -762,6 +814,11 @@ def traces_part(rep: Report, replay: dict | None, t_start: float) -> None:
             W, H, iw, ih = geo["W"], geo["H"], geo["iw"], geo["ih"]
             if v["verdict"] == "ok":
                 gfx = case["style"] != "block"
+                if (tl, tt, cols, rows) == (0, 0, W, H) and geo["step"] > 0:
+                    steps = case["session"]
+                    me = steps[geo["step"]]
+                    if me[3] and any(st == me for st in steps[:geo["step"] - 1]):
+                        seen["box-canvas-redrawn-at-unchanged-size-after-image-resized"] += 1
                 if (tl, tt, cols, rows) == (0, 0, W, H):
                     seen["flow-canvas" if case["sizing"] == "flow" else "box-canvas"] += 1
                 if (gfx and case["sizing"] == "flow" and not case["upscale"] and case.get("cell")
